@@ -146,7 +146,7 @@ fn eval(c: &SCase) -> CaseOutcome {
         Ok(t) => t,
         Err(e) => return CaseOutcome::Fail { key: "c20|unparsable-output".into(), what: e, replay },
     };
-    let mut ok = toks == exp;
+    let mut ok = crate::progs::events_match(&exp, &toks);
     if !ok && rr.stop == Stop::EofAtPrompt {
         // end of input at a prompt: the emulator must terminate; an "Exiting" note is allowed
         let mut e2 = exp.clone();
@@ -308,7 +308,7 @@ fn eval_input(c: &ICase) -> CaseOutcome {
         Ok(t) => t,
         Err(e) => return CaseOutcome::Fail { key: "c20|input|unparsable-output".into(), what: e, replay },
     };
-    if toks != exp {
+    if !crate::progs::events_match(&exp, &toks) {
         return CaseOutcome::Fail { key: "c20|input|events".into(), what: format!("stepping while the program reads the keyboard ({}): {}", ["-i", "int 3 before the first call", "int 3 before every call"][c.mode as usize], crate::c17::first_diff(&exp, &toks)), replay };
     }
     let reads = rr.stdin_seq.iter().filter(|(p, _)| !*p).count();
